@@ -95,21 +95,23 @@ CHECKS.update({
 NOT_YET = {}
 # extensions made after the second round of seeded changes (appended to the level text)
 EXTRA = {
+ "C16": " The mechanism-state graph also runs on the type graphs of MC_C01types, the documents of MC_C10sites and the block-model documents (every 5th quick / all thorough).",
+ "C04": " Matrix as built now: 15 defect classes (plus unsatisfiable-regex, regex-matching-empty); sweeps also run over the documents of MC_C10sites and MC_C01types.",
  "C10": " MC_C10sites: one of 11 macro bodies pasted at 1-3 of 5 sites (275 documents beyond the length bound); model invariant CatalogTransparent (Build(macro form) = Build(in-place form)).",
- "C09": " Base document d6 (an explicit context of the includer around an implicit URL and a method with its own path); model invariant CatalogSame (catalog of the split tree = catalog of the unsplit tree).",
+ "C09": " Base document d6 (an explicit context of the includer around an implicit URL and a method with its own path); model invariant CatalogSame (catalog of the split tree = catalog of the unsplit tree). Base document d7 (two resources of identical layout with different Description texts: after two cuts the texts lie at the same offsets of two files); 7 base documents in all.",
  "C02": " The schema skeleton also lists the first-level children of every schema (key, token type, JSight type). Compile-phase path checks are modelled (root-level URL / methods without Path are parsed before the build phase; errors of a Path's parent path stand on Path). The split projects of MC_C09 are replayed as layouts that distribute the text over INCLUDEd files.",
- "C01": " Type graphs: every graph over 2 (quick, 2 025 cases) / 3 (thorough, 140 625) user types with bodies {leaf, reference, or, property, optional property, array item, allOf} crossed with 9 sites using @t1 (Path by reference / by property, Headers, Query, Request, response, JSON-RPC, another TYPE) is built in crash-isolated workers (MC_C01types; model invariant: the walk with a visited set needs <= N unfoldings).",
- "C03": " Undefined tag inserted at every position of every Tags list. Annotation fault on a Body whose parent is a Request.",
+ "C01": " Type graphs: every graph over 2 (quick, 2 025 cases) / 3 (thorough, 140 625) user types with bodies {leaf, reference, or, property, optional property, array item, allOf} crossed with 9 sites using @t1 (Path by reference / by property, Headers, Query, Request, response, JSON-RPC, another TYPE) is built in crash-isolated workers (MC_C01types; model invariant: the walk with a visited set needs <= N unfoldings). Later additions: type-body shapes any / empty / regex / scalar; 'or' diamonds of depth 8-22 timed against the per-case limit (known finding: exponential walk in the dependency); fuzz family of long lines made of one repeated byte around the 200-byte quote limit.",
+ "C03": " Undefined tag inserted at every position of every Tags list. Annotation fault on a Body whose parent is a Request. As built now: 216 cases (quick); blocks urlTT (URL-level Tags every method overrides) and respB (bodies given by child Body directives); the 'second' fault class includes Body.",
  "C05": " Quick tier: the 2-block generator also places a prelude of dependency blocks (tags, type, enum, macro) before or after the chosen blocks, so blocks with dependencies and declarations after use are reached.",
- "C06": " Histories: every history of <= 2 (quick, 8 190) / 3 (thorough, reduced menus) builds over 5 x 3 file states and lists of option values from a process-wide pool (MC_C06); outcome class predicted by the model, bytes compared with a fresh process using freshly made options. The sweep includes the documents the model rejects (the error must be the same in every rebuild).",
- "C07": " Contexts across files: MC_C07 variant 'contexts' (explicit / implicit contexts, methods with own path, ')' on both sides of an INCLUDE; 21 931 projects). The replay rotates the line-break convention of all files of a project (LF, CRLF, CR) as well as the spelling of the root path.",
+ "C06": " Histories: every history of <= 2 (quick, 8 190) / 3 (thorough, reduced menus) builds over 5 x 3 file states and lists of option values from a process-wide pool (MC_C06); outcome class predicted by the model, bytes compared with a fresh process using freshly made options. The sweep includes the documents the model rejects (the error must be the same in every rebuild). Concurrent builds: 16 goroutines rebuild block-model documents in tight loops (40 / 400 rounds x 25 rebuilds); every result must equal the lone build.",
+ "C07": " Contexts across files: MC_C07 variant 'contexts' (explicit / implicit contexts, methods with own path, ')' on both sides of an INCLUDE; 21 931 projects). The replay rotates the line-break convention of all files of a project (LF, CRLF, CR) as well as the spelling of the root path. Third rotation: every line padded with trailing blanks to 199 / 200 / 201 / 260 bytes (limit of the error quote).",
  "C08": " Explicit closure: besides the full closure every single directive made explicit on its own (an explicit context next to implicitly nested siblings). When the canonical layout already deviates from the model, the other layouts are compared with the canonical layout directly.",
- "C11": " The resolver across an INCLUDE: MC_C07 variant 'contexts' (21 931 projects) replayed for verdict, class and place. Second resolver: for every document and explicit-mask variant of MC_C08doc without PASTE, the tree after the MACRO/PASTE pass must equal the scanned tree without MACROs.",
- "C12": " Bounds as built: 7 (quick) / 9 (thorough) bytes over the general menu plus a Description-focused configuration (18 / 20 bytes over a 9-chunk menu: text lines, CR / LF / CRLF, '( )', keywords of 3 bytes); corpus files validated by Trace_Scan.",
- "C13": " The Description-focused scanner configuration (keywords that end a Description text) is replayed as well.",
- "C15": " Base set sA: two resources sharing a path parameter described by one Path with an inline 'or' of rule sets.",
+ "C11": " The resolver across an INCLUDE: MC_C07 variant 'contexts' (21 931 projects) replayed for verdict, class and place. Second resolver: for every document and explicit-mask variant of MC_C08doc without PASTE, the tree after the MACRO/PASTE pass must equal the scanned tree without MACROs. The per-edge replay renders with LF, CRLF and CR in turn.",
+ "C12": " Bounds as built: 7 (quick) / 9 (thorough) bytes over the general menu plus a Description-focused configuration (18 / 20 bytes over a 9-chunk menu: text lines, CR / LF / CRLF, '( )', keywords of 3 bytes); corpus files validated by Trace_Scan. A comments-focused configuration (14 / 18 bytes over '#', '###', '//', '/*', '*/', CR, LF, blank, two keywords, a parameter: 294 000 tapes quick) is replayed as well.",
+ "C13": " The Description-focused scanner configuration (keywords that end a Description text) is replayed as well. The same full-alphabet exploration also starts at directive starts reached through prefixes that leave other entries on the scanner's stacks (behind '200 / Body any', 'Request / Body any', '... / TAG @t', 'GET /a', 'TYPE @t / {}', 'URL /a ('): 2 contexts quick, 6 thorough, 180 224 edges each.",
+ "C15": " Base set sA: two resources sharing a path parameter described by one Path with an inline 'or' of rule sets. 7 base sets now (840 permutations quick); sB (a regex type with several matching strings used by two resources) shows the recorded finding C15-regex-example-order.",
  "C17": " Quick tier sweeps the prelude documents of the generator (stand-alone methods with path parameters). OpenAPI.tla specifies the export as a function OAS(C) of the catalog value (servers, path items created by the first interaction of a path, operations with summary / tags by title / parameter names / request body / response keys, components); TLC checks Sound(C) = C17 on every accepted document of the block model (2 273 quick / ~20 000 thorough) and the real ToOpenAPIJson output is projected onto OAS(C): operation presence, path parameters and components are verdicts, the rest is reported as drift (0 on the current tree).",
- "C19": " Project p4: banned directives that carry a fault of their own (second Path parameter) in the root and in an included file; BanRule states that the ban is reported at the keyword unless a fault is met earlier in scan order. The histories of MC_C06 (option values reused across builds) are replayed for the verdict class.",
+ "C19": " Project p4: banned directives that carry a fault of their own (second Path parameter) in the root and in an included file; BanRule states that the ban is reported at the keyword unless a fault is met earlier in scan order. The histories of MC_C06 (option values reused across builds) are replayed for the verdict class. Project p5: JSIGHT written in an included file (5 projects in all).",
 }
 ALL = ["C%02d" % i for i in range(1, 20)]
 
@@ -151,6 +153,16 @@ def main():
         "notes": "Exit 0 held / 1 VIOLATION / 2 machinery failure (never a verdict). VERIF_SEED and VERIF_TIER are honoured. known_findings.json lists recorded and fixed genuine defects.",
     }
     json.dump(m, open(os.path.join(V, "MANIFEST.json"), "w"), indent=1)
+    # DESIGN.md section 10.5 (per-property procedures as built) is generated from the same table
+    dp = os.path.join(V, "DESIGN.md")
+    d = open(dp).read()
+    b, e = "<!-- BEGIN AS-BUILT (generated by tools/mkmanifest.py) -->", "<!-- END AS-BUILT -->"
+    if b in d and e in d:
+        body = ["", "### 10.5 Per-property procedures as built (generated from the MANIFEST table)", ""]
+        for c in checks:
+            body += ["**%s** - %s." % (c["property_id"], c["technique"]), "", c["level_claimed"]["text"], "", "*" + c["level_note"] + "*", ""]
+        d = d[:d.index(b) + len(b)] + "\n" + "\n".join(body) + "\n" + d[d.index(e):]
+        open(dp, "w").write(d)
     r = subprocess.run(["python3-vt", "-c", """
 import json, jsonschema, glob
 jsonschema.validate(json.load(open('/verif/MANIFEST.json')), json.load(open('/root/.vp/MANIFEST.schema.json')))
